@@ -165,6 +165,16 @@ pub fn dump_corpus(dir: &Path, seed: u64) -> usize {
 pub fn dump_corpus_for(dir: &Path, seed: u64, target: &str) -> usize {
     let _ = std::fs::create_dir_all(dir);
     let mut n = 0;
+    if target == "model" {
+        // tapes: random bytes of several lengths (every generator decision reads two of them)
+        let mut r = crate::rng::Rng::new(seed ^ 0x7A9E);
+        for i in 0..96u64 {
+            let len = [64usize, 256, 1024, 4096][(i % 4) as usize];
+            let _ = std::fs::write(dir.join(format!("tape-{}", i)), r.bytes(len));
+            n += 1;
+        }
+        return n;
+    }
     if target == "pipeline" {
         // sequences of length-prefixed datagrams
         for (i, b) in props::c14::fuzz_seeds(seed).into_iter().enumerate() {
@@ -210,6 +220,7 @@ pub fn run_fuzz(prop: &str, target: &str, tier: Tier, seed: u64, root: &Path, tm
         .arg("-fork=16").arg("-ignore_crashes=1").arg("-ignore_timeouts=1").arg("-ignore_ooms=1")
         .arg(format!("-artifact_prefix={}/", artifacts.display()))
         .env("RUSTFLAGS", "--cfg simple_dns_verif").env("CARGO_NET_OFFLINE", "true").env_remove("CARGO_TARGET_DIR").env_remove("VERIF_TIER")
+        .env("VERIF_MODEL_SEL", prop)
         .stdout(lf).stderr(lf2).spawn();
     let child = match child {
         Ok(c) => c,
@@ -232,19 +243,44 @@ pub fn run_fuzz(prop: &str, target: &str, tier: Tier, seed: u64, root: &Path, tm
     arts.sort();
     let mut confirmed = 0;
     let mut unconfirmed = 0;
-    for a in arts.iter().take(200) {
+    // each artefact is replayed by the plain harness in a process of its own (a hanging input then meets that process's
+    // CPU watchdog instead of stalling this one); only what the plain harness reports is believed
+    let family = if target == "model" { "fuzz-tape" } else { "fuzz-artifact" };
+    let exe = std::env::current_exe().unwrap();
+    let mut seen_sigs: std::collections::HashSet<String> = std::collections::HashSet::new();
+    for (k, a) in arts.iter().take(120).enumerate() {
         let Ok(bytes) = std::fs::read(a) else { continue };
-        let Some(p) = props::find(prop) else { continue };
-        let mut ctx = Ctx::new(prop, tier, seed, 0, 1);
-        ctx.replay_case = Some(json!({"family": "fuzz-artifact", "idx": 0, "bytes": crate::refdns::hex(&bytes)}));
-        let r = crate::monitor::guard(|| (p.run)(&mut ctx));
-        if r.is_err() || !ctx.violations.is_empty() {
-            confirmed += 1;
-            for v in &ctx.violations {
-                out.violations.push(json!({"clause": v.clause, "signature": v.signature, "detail": format!("(input found by libFuzzer, confirmed by the plain harness) {}", v.detail), "case": v.case, "count": 1}));
-            }
-        } else {
+        let case = json!({"family": family, "idx": 0, "bytes": crate::refdns::hex(&bytes)});
+        let rp = tmp.join(format!("fuzz-replay-{}-{}.json", target, k));
+        let _ = std::fs::write(&rp, serde_json::to_string(&json!({"property": prop, "tier": tier.name(), "seed": seed, "case": case})).unwrap());
+        let so = tmp.join(format!("fuzz-replay-{}-{}.out", target, k));
+        let child = Command::new(&exe).arg("replay").arg(&rp).env_remove("VERIF_TIER")
+            .stdout(std::fs::File::create(&so).unwrap()).stderr(Stdio::null()).spawn();
+        let Ok(child) = child else { unconfirmed += 1; continue };
+        let st = wait_all(vec![(0, child)], Duration::from_secs(120));
+        let text = std::fs::read_to_string(&so).unwrap_or_default();
+        let is_violation = st[0].1.map(|s| s.code() == Some(1)).unwrap_or(false) && text.lines().any(|l| l.starts_with("VIOLATION property="));
+        if !is_violation {
             unconfirmed += 1;
+            continue;
+        }
+        confirmed += 1;
+        let mut any = false;
+        for l in text.lines() {
+            // "  [clause] signature :: detail"
+            if let Some(rest) = l.strip_prefix("  [") {
+                if let Some((clause, rest)) = rest.split_once("] ") {
+                    if let Some((sig, detail)) = rest.split_once(" :: ") {
+                        any = true;
+                        if seen_sigs.insert(sig.to_string()) {
+                            out.violations.push(json!({"clause": clause, "signature": sig, "detail": format!("(input found by libFuzzer, confirmed by the plain harness) {}", detail), "case": case, "count": 1}));
+                        }
+                    }
+                }
+            }
+        }
+        if !any && seen_sigs.insert("replay-violation".to_string()) {
+            out.violations.push(json!({"clause": "replay", "signature": "fuzz-artifact-violates-on-replay", "detail": format!("(input found by libFuzzer) the plain harness reports a violation on replay: {}", text.lines().rev().take(3).collect::<Vec<_>>().join(" | ")), "case": case, "count": 1}));
         }
     }
     // fork mode prints "#<execs>: cov: <edges> ft: ... corp: ... exec/s ..." status lines
